@@ -145,6 +145,9 @@ func cmdRun(args []string) {
 	r.timeoutMs = *timeout
 	r.maxPaths = *maxPaths
 	r.solverNm = *solver
+	if os.Getenv("GOSYM_INITLOG") != "" {
+		r.initLog = func(s string) { fmt.Println("  init-tolerated:", s) }
+	}
 	t1 := time.Now()
 	r.Explore(*workers)
 	printRun(r, time.Since(t1))
